@@ -326,7 +326,8 @@ func (p *Prop) Run(t *simhook.Tape, opt simkit.RunOpt) *simkit.RunResult {
 
 	body := func() {
 		next := 0
-		for c.viol == nil && (next < len(xs)) {
+		// the loop is bounded by construction (an all-zero tape draws Combine forever)
+		for events := 0; c.viol == nil && next < len(xs) && events < 3*len(xs)+50; events++ {
 			// maybe a Combine / Reset between Adds
 			if nacc > 1 && rates[combineRate] > 0 && g.Intn(rates[combineRate]) == 0 {
 				i := g.Intn(nacc)
